@@ -1045,10 +1045,87 @@ class Emitter:
             finish(name in self.may_abort or self.fname(name) in NORETURN_RT and False)
             return
         # indirect
+        if self.opts.get('devirt'):
+            # opt-in (spec key 'devirt'): a virtual call (callee loaded from slot k of the object's vtable)
+            # becomes an exact dispatch over the slot-k entries of the module's vtables
+            cands = self.vcall_candidates(ins)
+            if cands:
+                fp = self.val(callee)
+                for i, cn in enumerate(cands):
+                    cf = self.mod.funcs[cn]
+                    cargs = ', '.join('(%s)%s' % (self.cty(p.ty), self.val(a)) for p, a in zip(cf.params, ins.args))
+                    w('  %sif ((void*)%s == (void*)&%s) { %s%s(%s); }' % (
+                        'else ' if i else '', fp, self.fname(cn), (r + ' = ') if r else '', self.fname(cn), cargs))
+                w('  else { __CPROVER_assert(0, "rt: virtual call target is not a slot entry of any vtable in the module"); }')
+                finish(self.any_abort)
+                return
         args = ', '.join(self.val(a) for a in ins.args)
         fty = ins.fty or FuncTy(ins.ty, [a.ty for a in ins.args], False)
         w('  %s((%s)%s)(%s);' % ((r + ' = ') if r else '', self.fptr_name(fty), self.val(callee), args))
         finish(self.any_abort)
+
+    def vcall_candidates(self, ins):
+        """virtual call `load(gep(load vptr, k))(this, ...)`: defined functions found at slot k (address point 2,
+        Itanium ABI) of the module's vtables whose arity matches and whose `this` class has the call's static class as
+        leading base; None when the call does not have that shape"""
+        f = self.cur
+        defs = getattr(f, '_vf_defs', None)
+        if defs is None:
+            defs = {}
+            for b in f.blocks:
+                for i in b.instrs:
+                    if i.res is not None:
+                        defs[i.res] = i
+            f._vf_defs = defs
+
+        def d(v):
+            return defs.get(v.name) if isinstance(v, Local) else None
+        ld = d(ins.callee)
+        if ld is None or ld.op != 'load' or ld.atomic:
+            return None
+        p = d(ld.ptr)
+        k = 0
+        if p is not None and p.op == 'gep' and len(p.idx) == 1 and isinstance(p.idx[0], ConstInt):
+            k = p.idx[0].v
+            p = d(p.base)
+        if p is None or p.op != 'load' or k < 0:
+            return None
+        t = p.ty
+        if not (t.kind == 'ptr' and t.to.kind == 'ptr' and resolve(self.mod, t.to.to).kind == 'func'):
+            return None
+        if not ins.args or ins.args[0].ty.kind != 'ptr':
+            return None
+        base = ins.args[0].ty.to
+
+        def derives(t0):
+            for _ in range(8):
+                if t0 == base:
+                    return True
+                r0 = resolve(self.mod, t0)
+                if r0.kind != 'struct' or not r0.fields:
+                    return False
+                t0 = r0.fields[0]
+            return False
+        out = []
+        for gn, g in self.mod.globals.items():
+            if not gn.startswith('_ZTV') or not isinstance(g.init, ConstAgg):
+                continue
+            for arr in g.init.elems:
+                if not isinstance(arr, ConstAgg) or len(arr.elems) <= 2 + k:
+                    continue
+                e = arr.elems[2 + k]
+                while isinstance(e, ConstExpr) and e.op == 'bitcast':
+                    e = e.args[0]
+                if not isinstance(e, GlobalRef) or e.name not in self.mod.funcs:
+                    continue
+                cf = self.mod.funcs[e.name]
+                if cf.is_decl or len(cf.params) != len(ins.args) or cf.vararg:
+                    continue
+                if cf.params[0].ty.kind != 'ptr' or not derives(cf.params[0].ty.to):
+                    continue
+                if e.name not in out:
+                    out.append(e.name)
+        return out or None
 
     def alloc_elem_type(self, ins):
         """C type of the elements an allocation is used as (from the first bitcast of its result)"""
